@@ -121,9 +121,21 @@ def run(tier: str) -> Run:
     for have in ((), ('incident_energy',), ('final_energy',), ('incident_energy', 'final_energy')):
         for origin, target in (('tof', 'energy_transfer'), ('tof', 'energy'), ('energy', 'wavelength'), ('tof', 'wavelength')):
             data = DataStub({origin, *have})
-            o = call(repo, it, '_deduce_energy_mode', data, origin, target)
-            got = o.value if o.kind == 'return' else ('error' if o.exc_type == 'RuntimeError' else f'raises {o.exc_type}')
+            # the mode decided is read off the graph that deduce_conversion_graph reports: it equals conversion_graph(..., mode)
+            o = call(repo, it, 'deduce_conversion_graph', data, origin, target, True)
             want = S.expected_mode(set(have), origin, target)
+            if o.kind == 'return':
+                modes = []
+                for m in ('elastic', 'direct_inelastic', 'indirect_inelastic'):
+                    try:
+                        g = call(repo, it, 'conversion_graph', origin, target, True, m)
+                    except AnalysisError:
+                        continue
+                    if g.kind == 'return' and graph_signature(g.value) == graph_signature(o.value):
+                        modes.append(m)
+                got = want if want in modes else (modes[0] if modes else 'a graph of no mode')
+            else:
+                got = 'error' if o.exc_type == 'RuntimeError' else f'raises {o.exc_type}'
             inst = f'mode[{origin}->{target}; energies={list(have)}]'
             r4.check(got == want, inst, where_of(repo, 'core.conversions', '_deduce_energy_mode', 'deduce_conversion_graph', 'convert'),
                      {'decided': got, 'documented': want}, key=inst)
